@@ -130,6 +130,7 @@ class LibMixin:
                 self.oblige(st, "fsafe", node, x >= 0, "sqrt of a possibly negative number (NaN)")
             r = sq(x)
             st.assume(z3.Implies(x >= 0, z3.And(r >= 0, r * r == x)))
+            st.assume(z3.Implies(x > 0, r > 0))
             return r
         v = self.eval(node.args[0], st)
         if isinstance(v, Sc):
@@ -234,6 +235,14 @@ class LibMixin:
             return self.astype(st, node, v, kind)
         raise VCError("cast of %r at line %d" % (v, node.lineno))
 
+    def copy_arr(self, st, v):
+        """A fresh object with the same contents (z3 arrays are values: the term is shared, no quantifier needed)."""
+        if isinstance(v, Ref):
+            o = st.obj(v)
+            return st.alloc(HArr(o.kind, o.a, o.n))
+        o = st.obj(v.ref)
+        return st.alloc(HArr(o.kind, self.as_z3_array(st, v), v.n))
+
     def int_of_real(self, t):
         """The Int term equal to real term t when t is syntactically integral, else None."""
         if z3.is_to_real(t):
@@ -259,7 +268,7 @@ class LibMixin:
     def astype(self, st, node, v, kind):
         k = self.elem_kind(st, v)
         if k == kind:
-            return self.elementwise(st, node, lambda e: e, [v], kind)  # a copy
+            return self.copy_arr(st, v)
         def f(e):
             s = Sc(k, e)
             if kind == "real":
@@ -369,13 +378,13 @@ class LibMixin:
         if isinstance(v, tuple) and v[0] == "dictvalues":
             d = st.obj(v[1])
             r = new_arr(d.vkind, "vals", n=d.size, is_list=True)
-            keyf = z3.Function("valkey!%d" % fresh_id(), INT, d.ksort)
+            keyf = fresh_func("valkey", INT, d.ksort)
             k = fresh("k", INT)
             st.assume(qall([k], z3.Implies(z3.And(k >= 0, k < d.size), z3.And(z3.Select(d.dom, keyf(k)), z3.Select(r.a, k) == z3.Select(d.val, keyf(k)))),
                                 pats=[z3.Select(r.a, k)]))
             return st.alloc(r)
         if self.is_arr1(st, v):
-            return self.elementwise(st, node, lambda e: e, [v], self.elem_kind(st, v))
+            return self.copy_arr(st, v)
         raise VCError("list() of %r at line %d" % (v, node.lineno))
 
     def b_set(self, node, st):
@@ -386,6 +395,17 @@ class LibMixin:
             o = st.obj(v)
             key = PAIR_MK(z3.Select(o.cols[0], 0), z3.Select(o.cols[1], 0))
             return st.alloc(HSet(PAIR_SORT, z3.Store(z3.K(PAIR_SORT, z3.BoolVal(False)), key, z3.BoolVal(True)), zint(1), "pair"))
+        if self.is_arr1(st, v) and self.elem_kind(st, v) == "int":
+            n = self.length_of(st, v)
+            dom = fresh("setdom", z3.ArraySort(INT, BOOL))
+            w = fresh_func("setw", INT, INT)
+            k, x = fresh("k", INT), fresh("x", INT)
+            ek = self.read_elem(st, v, k)
+            st.assume(qall([k], z3.Implies(z3.And(k >= 0, k < n), z3.Select(dom, ek)), pats=[ek]))
+            st.assume(qall([x], z3.Implies(z3.Select(dom, x), z3.And(w(x) >= 0, w(x) < n, self.read_elem(st, v, w(x)) == x)), pats=[z3.Select(dom, x)]))
+            size = fresh("setsize", INT)
+            st.assume(z3.And(size >= 0, size <= n))
+            return st.alloc(HSet(INT, dom, size))
         raise VCError("set() of %r at line %d" % (v, node.lineno))
 
     def b_print(self, node, st):
@@ -444,7 +464,7 @@ class LibMixin:
 
     def m_copy(self, recv, node, st):
         if self.is_arr1(st, recv):
-            return self.elementwise(st, node, lambda e: e, [recv], self.elem_kind(st, recv))
+            return self.copy_arr(st, recv)
         if isinstance(recv, Ref):
             return st.alloc(st.obj(recv).clone())
         raise VCError("copy of %r" % (recv,))
@@ -517,7 +537,7 @@ class LibMixin:
             j, k = fresh("k", INT), fresh("k", INT)
             st.assume(qall([j, k], z3.Implies(z3.And(0 <= j, j <= k, k < n), z3.Select(new_a, j) <= z3.Select(new_a, k)),
                                 pats=[z3.MultiPattern(z3.Select(new_a, j), z3.Select(new_a, k))]))
-            pf = z3.Function("perm!%d" % fresh_id(), INT, INT)
+            pf = fresh_func("perm", INT, INT)
             st.assume(qall([k], z3.Implies(z3.And(k >= 0, k < n), z3.And(pf(k) >= 0, pf(k) < n, z3.Select(new_a, k) == z3.Select(old_a, pf(k)))),
                                 pats=[z3.Select(new_a, k)]))
             st.mut(recv).a = new_a
@@ -534,7 +554,7 @@ class LibMixin:
                              z3.And(z3.Select(new[0], a) == z3.Select(new[0], b), z3.Select(new[1], a) <= z3.Select(new[1], b)))
             st.assume(qall([j, k], z3.Implies(z3.And(0 <= j, j <= k, k < n), le(j, k)),
                                 pats=[z3.MultiPattern(z3.Select(new[0], j), z3.Select(new[0], k))]))
-            pf = z3.Function("perm!%d" % fresh_id(), INT, INT)
+            pf = fresh_func("perm", INT, INT)
             st.assume(qall([k], z3.Implies(z3.And(k >= 0, k < n), z3.And(pf(k) >= 0, pf(k) < n,
                       *[z3.Select(nc, k) == z3.Select(oc, pf(k)) for nc, oc in zip(new, old)])), pats=[z3.Select(new[0], k)]))
             o.cols = new
@@ -543,7 +563,7 @@ class LibMixin:
 
     def l_np_sort(self, node, st):
         v = self.eval(node.args[0], st)
-        c = self.elementwise(st, node, lambda e: e, [v], self.elem_kind(st, v))
+        c = self.copy_arr(st, v)
         self.m_sort(c, node, st)
         return c
 
@@ -583,31 +603,30 @@ class LibMixin:
         ka = self.elem_kind(st, a)
         if isinstance(b, Sc):
             kind = "real" if "real" in (ka, b.kind) else ka
-            r = new_arr(kind, "app", n=z3.simplify(n + 1))
-            k = fresh("k", INT)
+            k = z3.Int("k!app")
             ea = self.read_elem(st, a, k)
             if kind == "real" and ka == "int":
                 ea = z3.ToReal(ea)
-            st.assume(qall([k], z3.Implies(z3.And(k >= 0, k < n), z3.Select(r.a, k) == ea), pats=[z3.Select(r.a, k)]))
-            st.assume(z3.Select(r.a, n) == self.conv(b, kind))
-            return st.alloc(r)
+            return st.alloc(HArr(kind, z3.Lambda([k], ite(k < n, ea, self.conv(b, kind))), z3.simplify(n + 1)))
         return self.concat(st, node, [a, b])
 
     def concat(self, st, node, vals):
         kinds = [self.elem_kind(st, v) for v in vals]
         kind = "real" if "real" in kinds else kinds[0]
-        total = zint(0)
-        r = new_arr(kind, "cat")
-        for v, kk in zip(vals, kinds):
-            n = self.length_of(st, v)
-            k = fresh("k", INT)
-            e = self.read_elem(st, v, k)
+        j = z3.Int("j!cat")
+        offs = [zint(0)]
+        for v in vals:
+            offs.append(z3.simplify(offs[-1] + self.length_of(st, v)))
+        body = None
+        for idx in range(len(vals) - 1, -1, -1):
+            v, kk = vals[idx], kinds[idx]
+            e = self.read_elem(st, v, j - offs[idx])
             if kind == "real" and kk == "int":
                 e = z3.ToReal(e)
-            st.assume(qall([k], z3.Implies(z3.And(k >= 0, k < n), z3.Select(r.a, total + k) == e), pats=[z3.Select(r.a, total + k)]))
-            total = total + n
-        r.n = z3.simplify(total)
-        return st.alloc(r)
+            body = e if body is None else ite(j < offs[idx + 1], e, body)
+        for v in vals:
+            st.assume(self.length_of(st, v) >= 0)
+        return st.alloc(HArr(kind, z3.Lambda([j], body), offs[-1]))
 
     def l_np_concatenate(self, node, st):
         v = self.eval(node.args[0], st)
@@ -620,10 +639,8 @@ class LibMixin:
         kind = self.elem_kind(st, v)
         n = self.length_of(st, v)
         f = self.psum_fn(kind)
-        r = new_arr(kind, "cumsum", n=n)
-        k = fresh("k", INT)
-        st.assume(qall([k], z3.Implies(z3.And(k >= 0, k < n), z3.Select(r.a, k) == f(self.as_z3_array(st, v), k + 1)), pats=[z3.Select(r.a, k)]))
-        return st.alloc(r)
+        k = z3.Int("k!cs")
+        return st.alloc(HArr("int" if kind == "bool" else kind, z3.Lambda([k], f(self.as_z3_array(st, v), k + 1)), n))
 
     def l_np_searchsorted(self, node, st):
         a = self.eval(node.args[0], st)
@@ -657,6 +674,10 @@ class LibMixin:
         raise VCError("np.array of %r at line %d" % (v, node.lineno))
 
     l_np_asarray = l_np_array
+
+    def l_np_mean(self, node, st):
+        self.eval(node.args[0], st)
+        return Sc("real", fresh("mean", REAL))
 
     def l_np_median(self, node, st):
         self.eval(node.args[0], st)
